@@ -37,7 +37,7 @@ from .terms import (
     consts_of,
 )
 
-MAX_INST = 400
+MAX_INST = 700
 
 
 def J(t):
@@ -111,7 +111,7 @@ def positive_in(q, terms):
     return True
 
 
-def instantiate(terms, rounds=3, templates=None):
+def instantiate(terms, rounds=5, templates=None):
     templates = templates or {}
     """terms: list of T (assumptions + goal). returns list of lemma instances (T Bool)."""
     out = []
@@ -154,6 +154,9 @@ def instantiate(terms, rounds=3, templates=None):
                     by_range.setdefault(str(h.of(x.args[0])) + "|" + str(x.args[0]), (h, {}))[1][kx] = x
                 continue
             done_J.add(kx)
+            if h.tpl is not None and h.tpl["template"].op == "seq.unit":
+                # map-shaped spec function: one output element per input element
+                new.append(Eq(Len(fx), Len(x)))
             if x.op == "#empty":
                 new.append(Eq(fx, h.zero()))
             elif x.op == "seq.unit":
@@ -161,6 +164,30 @@ def instantiate(terms, rounds=3, templates=None):
             elif x.op == "seq.++":
                 new.append(Eq(fx, h.plus(*[h.of(a) for a in x.args])))
                 stack.extend((h, a) for a in x.args)
+                # element replacement  s[:a] ++ [y] ++ s[a+1:] : split F(s) at the same index (under every heap variant
+                # of this application that the freshness rule can produce)
+                if len(x.args) == 3 and x.args[0].op == "seq.extract" and x.args[2].op == "seq.extract" and x.args[1].op == "seq.unit":
+                    e0, e2 = x.args[0], x.args[2]
+                    if str(e0.args[0]) == str(e2.args[0]) and e0.args[1].op == "#int" and e0.args[1].val == 0:
+                        s0, a = e0.args[0], e0.args[2]
+                        variants = [h]
+                        stripped = []
+                        ch = False
+                        for arg in h.rest:
+                            b0 = arg
+                            while b0.op == "store" and b0.args[1].op == "#const" and b0.args[1].args[0].startswith("new_"):
+                                b0 = b0.args[0]
+                                ch = True
+                            stripped.append(b0)
+                        if ch:
+                            variants.append(Hom(App(h.t.op, (x,) + tuple(stripped), h.t.sort), templates))
+                        for hv in variants:
+                            new.append(
+                                Implies(
+                                    And(Le(I(0), a), Lt(a, Len(s0)), Eq(e2.args[1], Add(a, I(1))), Ge(e2.args[2], Sub(Len(s0), Add(a, I(1))))),
+                                    Eq(hv.of(s0), hv.plus(hv.of(e0), hv.unit(Nth(s0, a)), hv.of(e2))),
+                                )
+                            )
             elif x.op == "ite":
                 new.append(Eq(fx, Ite(x.args[0], h.of(x.args[1]), h.of(x.args[2]))))
                 stack.extend((h, a) for a in x.args[1:])
@@ -277,6 +304,44 @@ def instantiate(terms, rounds=3, templates=None):
                     suf = Or(*[App("str.suffixof", (S(c), t), BOOL) for c in "boxd"])
                     lastc = App("str.at", (x, Sub(Len(x), I(1))), STR)
                     new.append(Implies(suf, And(Ge(Len(x), I(1)), Not(App("isdigit", (lastc,), BOOL)))))
+        # freshness: a constant new_*!N was allocated after every constant with a smaller number was created, so no
+        # older term denotes it or contains it; spec functions over older sequences do not see writes to its fields
+        fresh = [t for t in allsub.values() if t.op == "#const" and t.args[0].startswith("new_") and t.sort == "Ref"]
+        if fresh:
+            def stamp(t):
+                ns = [int(n.rsplit("!", 1)[1]) for n in _names(t) if "!" in n and n.rsplit("!", 1)[1].isdigit()]
+                return max(ns) if ns else -1
+
+            for r in fresh:
+                nr = int(r.args[0].rsplit("!", 1)[1])
+                for t in list(allsub.values()):
+                    if t is r or t.op in ("#forall", "#exists"):
+                        continue
+                    kk = ("fresh", str(r), str(t))
+                    if kk in done_other:
+                        continue
+                    if t.sort == "Ref" and t.op != "#const" and stamp(t) < nr and len(str(t)) < 300:
+                        done_other.add(kk)
+                        new.append(Ne(r, t))
+                    elif t.sort == "Ref" and t.op == "#const" and not t.args[0].startswith("$") and stamp(t) < nr:
+                        done_other.add(kk)
+                        new.append(Ne(r, t))
+                    elif t.op.startswith("hom_") or t.op == "J":
+                        # F(xs, ..., store(H, r, v), ...) == F(xs, ..., H, ...) when xs is older than r
+                        xs = t.args[0]
+                        if stamp(xs) >= nr:
+                            continue
+                        changed = False
+                        na = []
+                        for a in t.args[1:]:
+                            b = a
+                            while b.op == "store" and str(b.args[1]) == str(r):
+                                b = b.args[0]
+                                changed = True
+                            na.append(b)
+                        if changed:
+                            done_other.add(kk)
+                            new.append(Eq(t, App(t.op, (xs,) + tuple(na), t.sort)))
         # element of a concatenation / of a unit / of an extract: case split made explicit
         for t in list(allsub.values()):
             if t.op == "seq.nth":
@@ -300,6 +365,18 @@ def instantiate(terms, rounds=3, templates=None):
                     new.append(Eq(t, Ite(x.args[0], Nth(x.args[1], k), Nth(x.args[2], k))))
                 elif x.op == "irange":
                     new.append(Implies(And(Le(I(0), k), Lt(k, Sub(x.args[1], x.args[0]))), Eq(t, Add(x.args[0], k))))
+        # element of a map-shaped spec function
+        for t in list(allsub.values()):
+            if t.op == "seq.nth" and t.args[0].op.startswith("hom_"):
+                h = Hom(t.args[0], templates)
+                if h.tpl["template"].op == "seq.unit":
+                    kk = ("map-elem", str(t))
+                    if kk in done_other:
+                        continue
+                    done_other.add(kk)
+                    xs, k = t.args[0].args[0], t.args[1]
+                    u = h.unit(Nth(xs, k))
+                    new.append(Implies(And(Le(I(0), k), Lt(k, Len(xs))), Eq(t, u.args[0])))
         # elements of a filter satisfy the filter's predicate (filter-shaped homs: unit = ite(P(x), [x], []))
         for t in list(allsub.values()):
             if t.op == "seq.nth" and t.args[0].op.startswith("hom_"):
